@@ -355,7 +355,35 @@ func c08(r *vc.Run) int {
 		res := runChild(os.Getenv("VZ_BIN"), "c08", sc, filepath.Join(r.Scratch, fmt.Sprintf("c08-%d", i)), 25*time.Minute)
 		absorb(r, m, res, fmt.Sprintf("child%d", i), sc, true)
 	})
+	// crawl-HQ seen-store: full-pipeline runs in HQ mode against the HQ double (same child as C15)
+	hqRuns := r.N(4, 24)
+	hqChecked := 0
+	var hmu sync.Mutex
+	parallel(hqRuns, 8, func(i int) {
+		sc := c15Scenario{Seed: r.Seed, Index: 7000 + i, NPages: 14, MaxHops: 2,
+			Cfg: pipeConfig{Workers: 1 + i%3, MaxConcurrentAssets: 2, MaxHops: 2, MaxRedirect: 5, WARCPoolSize: 1, UseHQ: true, HQBatchSize: 5}}
+		dir := filepath.Join(r.Scratch, fmt.Sprintf("c08-hq-%d", i))
+		res := runChild(os.Getenv("VZ_BIN"), "pipe-c15", sc, dir, 7*time.Minute)
+		rep := absorb(&discardSink{}, newMerged(), res, fmt.Sprintf("hq-run%d", i), sc, false)
+		if rep == nil {
+			r.Inconclusive("hq-run-no-report")
+		} else {
+			hmu.Lock()
+			hqChecked += rep.Events["hq_unseen_assets_with_odd_query"]
+			hmu.Unlock()
+			if l, ok := rep.Extra["c08"].([]any); ok {
+				for _, v := range l {
+					if mm, ok := v.(map[string]any); ok {
+						r.Violation(fmt.Sprint(mm["sig"]), fmt.Sprintf("hq-run%d: %v", i, mm["what"]), map[string]any{"scenario": sc})
+					}
+				}
+			}
+		}
+		os.RemoveAll(dir)
+	})
 	cov := map[string]any{
+		"hq_mode_runs":                     hqRuns,
+		"hq_unseen_answers_checked":        hqChecked,
 		"evaluations":         m.Evaluations,
 		"distinct_nontrivial": len(m.Distinct),
 		"rule":                "one evaluation = one history of 30-50 seeds (pages with 1-6 assets from a pool of 10 URLs in 8 spellings, nested JSON assets, redirects, pool URLs reused as seeds) through the real preprocessor stage with the real LevelDB seencheck, sequential or with 4-8 seeds in flight; distinct = distinct (item type, situation in {first-sight, must-skip, promotion, concurrent-duplicate}, spelling) classes observed",
@@ -369,6 +397,6 @@ func c08(r *vc.Run) int {
 	return r.Finish("exploration", cov, []string{
 		"reference canonical URL = own resolver + lower-casing + default-port and fragment removal on pool spellings (never Zeno's canonicaliser)",
 		"real-time order from stamps taken around each preprocessor pass: a check that ended before another started must be honoured; overlapping checks of the same URL may both fetch",
-		"local seen-store only (the crawl-HQ store needs the HQ double: see C15/C08 notes in DESIGN.md)",
+		"crawl-HQ store: in full-pipeline HQ-mode runs against the HQ double, an asset the double answered as unseen (including assets whose canonical string differs from the text sent) must be fetched",
 	}, 12)
 }
